@@ -1,12 +1,18 @@
 /-
-C09 — first theorems; the round-trip / truncation theorems are being added.
+C09 — the serialised form (`.skf` payload, CBOR) round-trips, and the width
+dispatch of `load` selects the width the file was written with.
+
+Proof machinery: SkaModel/Lemmas/CborCore.lean (big-endian bytes, heads),
+CborSpec.lean (prefix-safe parsers `CB.Spec`), CborItems.lean (k-mers, sequences,
+rows, UTF-8 names), CborSkf.lean (the decoder as a chain of prefix-safe parsers).
 -/
 import SkaModel.Impl.Skf
 import SkaModel.Impl.Frame
+import SkaModel.Lemmas.CborSkf
 
 namespace SkaModel.Props.C09
 
-open SkaModel
+open SkaModel SkaModel.Cbor
 
 /-- heads are in shortest form: an argument below 24 is a single byte -/
 theorem head_small (m n : Nat) (h : n < 24) : Cbor.head m n = [UInt8.ofNat (m * 32 + n)] := by
@@ -16,5 +22,209 @@ theorem head_small (m n : Nat) (h : n < 24) : Cbor.head m n = [UInt8.ofNat (m * 
 theorem T09_width_mismatch_example :
     (SkfFile.decode 64 (SkfFile.encode { arr := { k := 35, rc := true, names := [], kmers := [5], variants := [[65]], counts := [1], kBits := 128 }, version := [48] })).isNone = true := by
   decide
+
+/-! ## well-formedness of a file written at width `W` -/
+
+/-- `f` is a well-formed file written at integer width `W`: the recorded width is `W ∈ {64,128}`,
+every split k-mer fits `W` bits, all lengths/counts fit a CBOR head argument (`< 2^64`), and
+`variants` is rectangular with one column per sample.  (Structure `CB.Valid`, fields `kBits width
+kmers k counts nNames nKmers nCounts nRows nCells nameLen versionLen rows`.) -/
+abbrev SkfFile.Valid (W : Nat) (f : SkfFile) : Prop := CB.Valid W f
+
+/-- all split k-mers of `f` are readable by the deserialiser at width `W'` -/
+abbrev SkfFile.Fits (W' : Nat) (f : SkfFile) : Prop := CB.Fits W' f
+
+/-! ## 1. heads and elements -/
+
+theorem T09_head (m n : Nat) (rest : List UInt8) (hm : m < 8) (hn : n < 2 ^ 64) :
+    parseHead (head m n ++ rest) = some (m, n, rest) :=
+  CB.parseHead_head m n rest hm hn
+
+/-- heads are prefix-free -/
+theorem T09_head_prefix (m n : Nat) (q : List UInt8) (hm : m < 8) (hn : n < 2 ^ 64)
+    (hq : q <+: head m n) (hne : q ≠ head m n) : parseHead q = none := by
+  obtain ⟨t, ht⟩ := hq
+  refine CB.parseHead_prefix m n q t hm hn ht ?_
+  rintro rfl
+  exact hne (by simpa using ht)
+
+theorem T09_uint (n : Nat) (rest : List UInt8) (hn : n < 2 ^ 64) :
+    parseUint (uint n ++ rest) = some (n, rest) :=
+  (CB.spec_uint hn).full rest
+
+theorem T09_text (s rest : List UInt8) (hs : s.length < 2 ^ 64) :
+    parseText (text s ++ rest) = some (s, rest) :=
+  (CB.spec_text hs).full rest
+
+theorem T09_bool (b : Bool) (rest : List UInt8) : parseBool (Cbor.bool b ++ rest) = some (b, rest) :=
+  (CB.spec_bool b).full rest
+
+theorem T09_kmer128 (x : Nat) (rest : List UInt8) (hx : x < 2 ^ 128) :
+    parseKmer 128 (kmer x ++ rest) = some (x, rest) := by
+  have := (CB.spec_kmer 128 x hx).full rest
+  simpa [CB.kmerRes] using this
+
+theorem T09_kmer64 (x : Nat) (rest : List UInt8) (hx : x < 2 ^ 64) :
+    parseKmer 64 (kmer x ++ rest) = some (x, rest) := by
+  have := (CB.spec_kmer 64 x (Nat.lt_trans hx (by decide))).full rest
+  simpa [CB.kmerRes, hx] using this
+
+/-- "integer too large": a tag-2 k-mer is rejected by the 64-bit deserialiser -/
+theorem T09_kmer64_too_large (x : Nat) (rest : List UInt8) (hlo : 2 ^ 64 ≤ x) (hx : x < 2 ^ 128) :
+    parseKmer 64 (kmer x ++ rest) = none := by
+  have := (CB.spec_kmer 64 x hx).full rest
+  have hn : ¬ x < 2 ^ 64 := Nat.not_lt.mpr hlo
+  simpa [CB.kmerRes, hn] using this
+
+/-- the names survive `String.toUTF8` / `String.fromUTF8?` (no hypothesis on the names needed) -/
+theorem T09_name (s : String) : String.fromUTF8? (ByteArray.mk s.toUTF8.toList.toArray) = some s :=
+  CB.fromUTF8_toUTF8 s
+
+/-- `parseMany` over a flattened list of encodings, for any element parser that round-trips -/
+theorem T09_parseMany {α : Type} (p : List UInt8 → Option (α × List UInt8)) (e : α → List UInt8)
+    (xs : List α) (rest : List UInt8) (h : ∀ x ∈ xs, ∀ r, p (e x ++ r) = some (x, r)) :
+    parseMany p xs.length ((xs.map e).flatten ++ rest) = some (xs, rest) := by
+  induction xs generalizing rest with
+  | nil => rfl
+  | cons x xs ih =>
+    simp only [List.map_cons, List.flatten_cons, List.length_cons, parseMany, List.append_assoc,
+      h x (List.mem_cons_self ..), ih rest (fun y hy => h y (List.mem_cons_of_mem _ hy))]
+
+theorem T09_parseArray {α : Type} (p : List UInt8 → Option (α × List UInt8)) (e : α → List UInt8)
+    (xs : List α) (rest : List UInt8) (hl : xs.length < 2 ^ 64)
+    (h : ∀ x ∈ xs, ∀ r, p (e x ++ r) = some (x, r)) :
+    parseArray p (head 4 xs.length ++ (xs.map e).flatten ++ rest) = some (xs, rest) := by
+  simp only [parseArray, List.append_assoc, CB.parseHead_head 4 xs.length _ (by decide) hl]
+  exact T09_parseMany p e xs rest h
+
+theorem T09_chunkRows (rows : List (List UInt8)) (c : Nat) (h : ∀ r ∈ rows, r.length = c) :
+    chunkRows rows.length c rows.flatten = rows :=
+  CB.chunkRows_flatten rows c h
+
+/-! ## the decoder on a well-formed file, at either width -/
+
+open Classical in
+/-- Complete description of `decode W'` on (an extension of) the encoding of a file written at
+width `W`: it succeeds, returning the file and exactly the unread rest, iff all k-mers are
+readable at `W'` and `W' = W`. -/
+theorem T09_decode_char {W : Nat} {f : SkfFile} (hv : SkfFile.Valid W f) (W' : Nat) (rest : List UInt8) :
+    SkfFile.decode W' (f.encode ++ rest) = if SkfFile.Fits W' f ∧ W' = W then some (f, rest) else none := by
+  rw [CB.decode_eq, CB.encode_eq, (CB.decode'_spec hv W').full rest]
+  split <;> rfl
+
+theorem fits_self {W : Nat} {f : SkfFile} (hv : SkfFile.Valid W f) : SkfFile.Fits W f := by
+  intro x hx
+  rcases hv.width with rfl | rfl
+  · exact Or.inl (hv.kmers x hx)
+  · exact Or.inr rfl
+
+/-! ## 2. round trip -/
+
+/-- saving and reloading preserves k, strand mode, names, every k-mer with its bases, the
+counts and the version -/
+theorem T09_roundtrip {W : Nat} {f : SkfFile} (hv : SkfFile.Valid W f) (rest : List UInt8) :
+    SkfFile.decode W (f.encode ++ rest) = some (f, rest) := by
+  rw [T09_decode_char hv W rest, if_pos ⟨fits_self hv, rfl⟩]
+
+theorem T09_roundtrip_nil {W : Nat} {f : SkfFile} (hv : SkfFile.Valid W f) :
+    SkfFile.decode W f.encode = some (f, []) := by
+  simpa using T09_roundtrip hv []
+
+/-- consequently the encoding is injective on well-formed files -/
+theorem T09_encode_injective {W : Nat} {f g : SkfFile} (hf : SkfFile.Valid W f) (hg : SkfFile.Valid W g)
+    (h : f.encode = g.encode) : f = g := by
+  have h1 : some (g, ([] : List UInt8)) = some (f, []) :=
+    (T09_roundtrip_nil hg).symm.trans ((congrArg (SkfFile.decode W) h.symm).trans (T09_roundtrip_nil hf))
+  exact (Prod.mk.inj (Option.some.inj h1)).1.symm
+
+/-! ## 3. dispatch -/
+
+/-- a file written at one width is rejected by the deserialiser of the other width — also when
+all k-mers of a 128-bit file are below 2^64 (then the `k_bits` check rejects) -/
+theorem T09_wrong_width_general {W W' : Nat} {f : SkfFile} (hv : SkfFile.Valid W f) (hne : W' ≠ W)
+    (rest : List UInt8) : SkfFile.decode W' (f.encode ++ rest) = none := by
+  rw [T09_decode_char hv W' rest, if_neg (fun h => hne h.2)]
+
+theorem T09_wrong_width {f : SkfFile} (hv : SkfFile.Valid 128 f) : SkfFile.decode 64 f.encode = none := by
+  simpa using T09_wrong_width_general hv (W' := 64) (by decide) []
+
+theorem T09_wrong_width' {f : SkfFile} (hv : SkfFile.Valid 64 f) : SkfFile.decode 128 f.encode = none := by
+  simpa using T09_wrong_width_general hv (W' := 128) (by decide) []
+
+/-- `load (save x)` selects the width `x` was written with -/
+theorem T09_dispatch {W : Nat} {f : SkfFile} (hv : SkfFile.Valid W f) : SkfFile.loadAny f.encode = some f := by
+  rcases hv.width with rfl | rfl
+  · simp [SkfFile.loadAny, T09_roundtrip_nil hv]
+  · simp [SkfFile.loadAny, T09_wrong_width hv, T09_roundtrip_nil hv]
+
+/-! ## 4. truncation: proper prefixes of an encoding are rejected -/
+
+/-- definite-length CBOR is prefix-free: no proper prefix of the encoding of a well-formed
+file decodes, at any width -/
+theorem T09_prefix {W : Nat} {f : SkfFile} (hv : SkfFile.Valid W f) (W' : Nat) (p : List UInt8)
+    (hp : p <+: f.encode) (hne : p ≠ f.encode) : SkfFile.decode W' p = none := by
+  obtain ⟨t, ht⟩ := hp
+  rw [CB.decode_eq]
+  refine (CB.decode'_spec hv W').pre p t (by rw [← CB.encode_eq]; exact ht) ?_
+  rintro rfl
+  exact hne (by simpa using ht)
+
+/-- the same, phrased with truncation to the first `i` bytes -/
+theorem T09_truncated {W : Nat} {f : SkfFile} (hv : SkfFile.Valid W f) (W' i : Nat)
+    (hi : i < f.encode.length) : SkfFile.decode W' (f.encode.take i) = none := by
+  refine T09_prefix hv W' _ (List.take_prefix i _) ?_
+  intro h
+  have := congrArg List.length h
+  rw [List.length_take] at this
+  omega
+
+theorem T09_prefix_loadAny {W : Nat} {f : SkfFile} (hv : SkfFile.Valid W f) (p : List UInt8)
+    (hp : p <+: f.encode) (hne : p ≠ f.encode) : SkfFile.loadAny p = none := by
+  simp [SkfFile.loadAny, T09_prefix hv 64 p hp hne, T09_prefix hv 128 p hp hne]
+
+/-! ## 5. non-vacuity: concrete files at both widths -/
+
+/-- a 64-bit file: 2 samples, 2 rows -/
+def ex64 : SkfFile :=
+  { arr := { k := 31, rc := true, names := ["s1", "s2"], kmers := [5, 1099511627775],
+             variants := [[65, 67], [45, 71]], counts := [2, 1], kBits := 64 }, version := [48, 46, 51] }
+
+/-- a 128-bit file whose k-mers all fit in 64 bits -/
+def ex128small : SkfFile := { ex64 with arr := { ex64.arr with k := 63, kBits := 128 } }
+
+/-- a 128-bit file with a k-mer ≥ 2^64 (tag-2 path) -/
+def ex128big : SkfFile :=
+  { ex64 with arr := { ex64.arr with k := 63, kBits := 128, kmers := [5, 2 ^ 64 + 7] } }
+
+theorem ex64_valid : SkfFile.Valid 64 ex64 := by constructor <;> decide
+theorem ex128small_valid : SkfFile.Valid 128 ex128small := by constructor <;> decide
+theorem ex128big_valid : SkfFile.Valid 128 ex128big := by constructor <;> decide
+
+-- the theorems apply ...
+example : SkfFile.decode 64 ex64.encode = some (ex64, []) := T09_roundtrip_nil ex64_valid
+example : SkfFile.loadAny ex128small.encode = some ex128small := T09_dispatch ex128small_valid
+example : SkfFile.decode 64 ex128small.encode = none := T09_wrong_width ex128small_valid
+example : SkfFile.decode 128 ex64.encode = none := T09_wrong_width' ex64_valid
+
+-- ... and agree with direct evaluation in the kernel
+example : kmer (2 ^ 64 + 7) = [0xc2, 0x49, 1, 0, 0, 0, 0, 0, 0, 0, 7] := by decide
+example : kmer (2 ^ 64 - 1) = [0x1b, 255, 255, 255, 255, 255, 255, 255, 255] := by decide
+example : parseKmer 64 (kmer (2 ^ 64 + 7)) = none := by decide
+example : parseKmer 128 (kmer (2 ^ 64 + 7)) = some (2 ^ 64 + 7, []) := by decide
+example : ex64.encode.take 12 = [0xa8, 0x61, 0x6b, 0x18, 31, 0x62, 0x72, 0x63, 0xf5, 0x65, 0x6e, 0x61] := by
+  decide +kernel
+example : SkfFile.loadAny ex64.encode = some ex64 := by decide +kernel
+example : SkfFile.loadAny ex128small.encode = some ex128small := by decide +kernel
+example : SkfFile.loadAny ex128big.encode = some ex128big := by decide +kernel
+/-- all k-mers fit 64 bits, everything parses at 64 bits, the `k_bits` check rejects -/
+example : SkfFile.decode 64 ex128small.encode = none := by decide +kernel
+example : SkfFile.decode 64 ex128big.encode = none := by decide +kernel
+example : SkfFile.decode 128 ex64.encode = none := by decide +kernel
+/-- every proper prefix of an encoding is rejected at both widths -/
+example : (List.range ex128big.encode.length).all (fun i =>
+    (SkfFile.decode 64 (ex128big.encode.take i)).isNone && (SkfFile.decode 128 (ex128big.encode.take i)).isNone) = true := by
+  decide +kernel
+/-- trailing bytes are returned unread -/
+example : SkfFile.decode 128 (ex128big.encode ++ [1, 2, 3]) = some (ex128big, [1, 2, 3]) := by decide +kernel
 
 end SkaModel.Props.C09
